@@ -60,7 +60,7 @@ CASE_TIMEOUT = 120
 
 def gen_cases(seed, tier):
     rng = np.random.default_rng([seed, 8])
-    n = 720 if tier == "quick" else 14000
+    n = 720 if tier == "quick" else 30000
     big = tier != "quick"
     cases = []
     for i in range(n):
